@@ -471,7 +471,13 @@ func (w *World) threadAlts(th *thread) (alts []alt, hasDefault bool) {
 		answer("ok", Cost{}, len(p), nil, respMode{}, false, false)
 		// (offered for requesters only: a read routine stuck in its own write
 		// without any deadline is where the application asked it to be)
-		if f.WriteBlock && w.allow("writeblock") && !strings.HasPrefix(th.name, "a:reader") && c.bk.connected {
+		closing := false // Disconnect's own DISCONNECT: stuck in its write without a deadline, it is where it was asked to be
+		for _, a := range w.actors {
+			if a.th == th && a.pc < len(a.spec.Ops) && (a.spec.Ops[a.pc].Kind == "disc" || a.spec.Ops[a.pc].Kind == "close") {
+				closing = true
+			}
+		}
+		if f.WriteBlock && w.allow("writeblock") && !strings.HasPrefix(th.name, "a:reader") && !closing && c.bk.connected {
 			alts = append(alts, alt{label: fmt.Sprintf("c%d peer stops reading (%s blocks in write)", c.id, th.name), cost: F, do: func() {
 				w.ev(Event{K: "wblock", T: th.name, C: c.id})
 				c.wblock = true
